@@ -178,7 +178,7 @@ class SdoServer(SdoBase):
     def abort(self, abort_code=0x08000000):
         """Abort current transfer."""
         data = struct.pack("<BHBL", RESPONSE_ABORTED,
-                           self._index, self._subindex, abort_code)
+                           self._index or 0, self._subindex or 0, abort_code)
         self.send_response(data)
         # logger.error("Transfer aborted with code 0x%08X", abort_code)
 
